@@ -13,15 +13,18 @@ from vmon.util import Mon, jsonable
 
 ID = 'C14'
 RULE = ('crystals {sc, square, fcc, honey, hcp, bcc} x pool of 4 inputs per range x histories over the alphabet {Lij(k), edit-returned, '
-        'clearcache, regenerate(N'"'"'), reload, repeat}: every sequence of length <= 3 (quick) / 4 (thorough) on sc and square, plus random '
+        'clearcache, regenerate(N'"'"'), reload, repeat; random histories also: near-duplicate input (1e-9..1e-6 away), caller re-using and editing its own argument arrays}: every sequence of length <= 3 (quick) / 4 (thorough) on sc and square, plus random '
         'histories of length 30; non-trivial = history contains at least one state-changing operation before a Lij; distinct = the '
         'operation sequence')
 ASSUMPTIONS = ['a fresh calculator for the same crystal/network/range is the sequential model; agreement 1e-11 x scale (same '
                'floating-point operations up to the order of symmetry operations)', 'inputs: sigma 0.7, all groups randomised']
-REQUIRED_OBS = {'eval:C14:Lij=fresh': 200, 'op:edit': 20, 'op:clearcache': 20, 'op:regenerate': 20, 'op:reload': 5, 'op:repeat': 20,
+REQUIRED_OBS = {'eval:C14:Lij=fresh': 200, 'op:near': 5, 'op:mine': 5, 'op:edit': 20, 'op:clearcache': 20, 'op:regenerate': 20, 'op:reload': 5, 'op:repeat': 20,
                 'histories': 50}
 CASE_TIMEOUT = 1500
 OPS = ('L0', 'L1', 'L2', 'edit', 'clear', 'regen', 'reload')
+# random histories additionally use: 'near' (an input 1e-7 away from pool input 0: a different question, to be answered on its
+# own) and 'mine' (the caller keeps its own argument arrays, shifts all barriers in place and asks again with the same objects)
+OPS_RANDOM = OPS + ('near', 'mine')
 
 
 def cases(tier, seed):
@@ -73,6 +76,7 @@ def play(mon, model, name, seq, rng, sample_holder):
     N = 1
     log = []
     returned = []
+    mine = {}
     for step, op in enumerate(seq):
         ev = {'seq': step, 'op': op}
         try:
@@ -95,6 +99,31 @@ def play(mon, model, name, seq, rng, sample_holder):
                               [np.round(x, 10).tolist() for x in ref]),
                           tags=['after:' + o for o in set(seq[:step]) if not o.startswith('L')])
                 mon.count('op:repeat', op in seq[:step])
+                continue
+            if op in ('near', 'mine'):
+                if op == 'near':
+                    args = [a.copy() for a in model.pool(N, rng)[0]]
+                    eps = 10 ** float(rng.uniform(-9, -6))
+                    args[0] = args[0] * (1 + eps)
+                    args[3] = args[3] * (1 + eps)
+                    mon.count('op:near')
+                else:
+                    if mine.get(N) is None: mine[N] = [a.copy() for a in model.pool(N, rng)[1]]
+                    shift = float(rng.uniform(0.3, 1.5))
+                    for q in (3, 4, 5): mine[N][q] += shift     # all barriers up by `shift` kT, in the caller's own arrays
+                    args = mine[N]
+                    mon.count('op:mine')
+                res = live.Lij(*args)
+                returned.append(res)
+                fresh = work_vac.get_calc(name, N, fresh=True)
+                ref = [np.array(x) for x in fresh.Lij(*[a.copy() for a in args])]
+                sc = max(np.abs(ref[0]).max(), np.abs(ref[1]).max(), 1e-300)
+                ok = all(np.abs(np.asarray(a) - b).max() <= 1e-11 * max(sc, np.abs(b).max()) for a, b in zip(res, ref))
+                mon.check(ok, 'C14:Lij=fresh',
+                          lambda: 'history %s: event %d (%s) Lij = %s but a fresh calculator gives %s for the same numbers' % (
+                              seq[:step + 1], step, op, [np.round(np.asarray(x), 12).tolist() for x in res], [np.round(x, 12).tolist() for x in ref]),
+                          tags=['after:' + o for o in set(seq[:step]) if not o.startswith('L')])
+                log.append(ev)
                 continue
             if op == 'edit':
                 # the caller owns what Lij returned: scribble over every array handed out so far
@@ -138,8 +167,8 @@ def run_case(case):
             play(mon, model, case['name'], seq, rng, holder)
     else:
         for h in range(case['nhist']):
-            w = np.array([3, 3, 3, 1.5, 1.5, 1, 0.7])
-            seq = [OPS[int(i)] for i in rng.choice(len(OPS), size=case['length'], p=w / w.sum())]
+            w = np.array([3, 3, 3, 1.5, 1.5, 1, 0.7, 1.5, 1.5])
+            seq = [OPS_RANDOM[int(i)] for i in rng.choice(len(OPS_RANDOM), size=case['length'], p=w / w.sum())]
             seq.append('L0')
             play(mon, model, case['name'], seq, rng, holder)
     return mon.result(sample=holder[0])
